@@ -204,8 +204,12 @@ class Fam:
                     p["sb"] = sb_force[i]
             else:
                 p["sb"] = rng.weighted([("none", 3), ("toggle-off", 1)])
+            if not nf and p["sb"] == "mid":
+                p["sb"] = "top"                                   # (no function to put the pragma behind)
             p["sb_at"] = rng.range(1, nf) if nf else 0          # "mid": after this many functions
             p["st"] = rng.weighted([("top", 3), ("mid", 2), ("end", 1)]) if p["types"] else "none"
+            if not nf and p["st"] == "mid":
+                p["st"] = "top"
             p["st_at"] = rng.range(1, nf) if nf else 0
             if p["sb"] in ("inc-top", "inc-end"):
                 nm = "s%d.h" % i
@@ -239,6 +243,12 @@ class Fam:
         rng = self.rng
         p = self.progs[i]
         nf = rng.range(3, 12)
+        empty = None
+        if not big and rng.chance(1, 9):
+            # a program without functions: nothing at all, one variable, or one string in an initialiser
+            nf = 0
+            empty = rng.choice(["nothing", "variable", "string"])
+        p["empty"] = empty
         fns = []
         inherited_public = []
         for j in p["inh"]:
@@ -369,6 +379,10 @@ class Fam:
             t += '#include "%s"\n' % nm
         for j in p["inh"]:
             t += 'inherit "/%s";\n' % self.obj(j)
+        if p.get("empty") == "variable":
+            t += "int lone%d_g = %d;\n" % (i, p["k"])
+        elif p.get("empty") == "string":
+            t += "string lone%d_s = \"lone %d\";\n" % (i, p["k"])
         for g in range(p.get("grow", 0)):
             # an edit that changes what heirs see: one more global variable and one more public function
             t += "int grown%d_g = %d;\nint grown%d_f (string s) { return %d + strlen (s); }\n" % (g, 7000 + g, g, 7100 + g)
@@ -490,7 +504,8 @@ def sys_case(rng, cid, steps=None, nprog=None, big=False, script=None, mode=None
             script.append(rng.weighted([("nothing", 6), ("edit-src", 3), ("edit-inc", 3), ("touch-inh", 2), ("touch-src", 2),
                                         ("touch-inc", 1), ("simul-restart", 2), ("restart", 1), ("equal-inc", 1),
                                         ("simul-norestart", 1), ("edit-parent-inc", 2), ("damage", 2), ("foreign", 2), ("moved", 1), ("badload", 1),
-                                        ("parent-noreload", 3), ("parent-drops-pragma", 3), ("parent-refused", 3), ("shadow-inc", 3)]))
+                                        ("parent-noreload", 3), ("parent-drops-pragma", 3), ("parent-refused", 3), ("shadow-inc", 3),
+                                        ("grandparent-reloaded", 2)]))
     for act in script:
         t += 1
         which = None
@@ -624,6 +639,22 @@ def sys_case(rng, cid, steps=None, nprog=None, big=False, script=None, mode=None
                     L.append(fam_line)
                     t += 10
                 L.append("calls " + " ".join(calls))
+        elif act == "grandparent-reloaded" and mode == "reload" and len(fam.progs) >= 3 and 2 in fam.progs[1]["inh"] \
+                and 1 in fam.progs[0]["inh"]:
+            # p0 inherits p1 inherits p2.  p2 is edited (its variables and functions shift) and loaded again ALONE, so p1 in
+            # memory is still linked with the old p2 block; then p0 is compiled again against that p1
+            fam.progs[2]["grow"] = fam.progs[2].get("grow", 0) + 1
+            L.append("file /%s %s" % (fam.path(2), hx(fam.text(2))))
+            L.append("mtime /%s %d" % (fam.path(2), t))
+            for top_calls, line in (("nosuch_zz:x", "reload %s | %s %s" % (objs[2], objs[0], objs[1])),
+                                    (" ".join(calls), "reload %s | %s %s" % (objs[0], objs[1], objs[2]))):
+                t += 10
+                L.append("now %d" % t)
+                L.append("intern " + " ".join(hx(n) for n in rng.shuffle(names)))
+                L.append("calls " + top_calls)
+                L.append(line)
+                t += 10
+            L.append("calls " + " ".join(calls))
         elif act == "shadow-inc":
             # a header found in the include directory gets a namesake next to the sources (older or newer than everything)
             cand = [nm for nm in sorted(fam.incs) if fam.incs[nm].get("global") and not fam.incs[nm].get("shadowed")]
@@ -655,7 +686,7 @@ def sys_case(rng, cid, steps=None, nprog=None, big=False, script=None, mode=None
             L.append("restart " + " ".join(objs))
         reload()
     L.append("mtime /simul_efun.c 500")
-    return E.Case(cid, L, {"origin": "generated", "kind": "sys"})
+    return E.Case(cid, L, {"origin": "generated", "kind": "sys", "empty": any(p.get("empty") for p in fam.progs)})
 
 
 def unit_case(rng, cid):
@@ -776,6 +807,24 @@ def boundary():
             c.id = "b-sys-shadow-inc-%d" % seed
             B.append(c)
             nsh += 1
+    # a grandparent is edited and loaded again alone; its child in memory stays linked with the old block
+    ngp = 0
+    for seed in range(8000, 8040):
+        c = sys_case(E.Rng(seed), "gp%d" % seed, nprog=3, script=["grandparent-reloaded", "nothing"], saves=[True, seed % 2 == 0, False],
+                     mode="reload")
+        if any(l.startswith("calls nosuch_zz") for l in c.lines) and ngp < 6:
+            c.id = "b-sys-grandparent-reloaded-%d" % seed
+            B.append(c)
+            ngp += 1
+    # programs without functions (nothing at all / one variable / one string), as top, in the middle and as a parent
+    nem = 0
+    for seed in range(7900, 7990):
+        c = sys_case(E.Rng(seed), "em%d" % seed, nprog=1 + seed % 3, script=["nothing", "edit-src", "nothing"],
+                     mode=["reloadp", "reload"][seed % 2])
+        if c.meta.get("empty") and nem < 10:
+            c.id = "b-sys-empty-program-%d" % seed
+            B.append(c)
+            nem += 1
     for k in range(4):
         c = sys_case(E.Rng(7300 + k), "e%d" % k, nprog=2, script=["badload", "nothing"], mode="reload")
         c.id = "b-sys-badload-%d" % k
@@ -817,7 +866,7 @@ def histogram(cases, impl):
     for c in cases:
         for l in c.lines:
             if l.startswith("file ") and l.split()[1].endswith(".c") and "/c17/w/" in l:
-                t = bytes.fromhex(l.split()[2]).decode(errors="replace").splitlines()
+                t = bytes.fromhex(l.split()[2].replace("-", "")).decode(errors="replace").splitlines()
                 idx = [i for i, x in enumerate(t) if x.strip() == "#pragma save_binary"]
                 k = "none" if not idx else "top" if idx[-1] == 0 else "last" if idx[-1] >= len(t) - 2 else "between"
                 if any("no_save_binary" in x for x in t):
